@@ -25,7 +25,7 @@ fn main() {
         vec![Spec { n_min: 3, ..Spec::open(3, 2, 1, 2, 1, 1, 1) }]
     } else {
         let b = Spec { n_min: 3, ..Spec::open(3, 2, 2, 2, 2, 1, 1) };
-        vec![Spec { e_max: 1, ..b.clone() }, Spec { e_min: 2, lw: 1, lx: 1, ..b.clone() }, Spec { e_min: 2, ks: 1, kt: 1, ..b }]
+        vec![Spec { e_max: 1, ..b.clone() }, Spec { e_min: 2, lw: 1, lx: 1, ..b.clone() }, Spec { e_min: 2, ks: 1, kt: 1, ..b.clone() }, Spec { e_min: 2, lx: 1, ..b }]
     };
     for spec3 in specs3 {
         let u3 = spec3.universe();
